@@ -45,7 +45,7 @@ func init() {
 	caseGens["C17"] = caseGen{count: c17Count, gen: c17Gen}
 }
 
-const c17NQ = 9 // cases per round: 5 traced + 4 race-detector runs
+const c17NQ = 10 // cases per round: 5 traced + 5 race-detector runs
 
 func c17Count(tier string) int {
 	if tier == "thorough" {
@@ -66,6 +66,7 @@ type c17Cfg struct {
 	saveGap bool   // wait for the status thread's delayed save before Start (viper store candidate)
 	narch   int    // number of raw-data-block requests
 	long    bool   // tri only: blocks of 2.5 s, so that ONE block closes several 1-second trigger-rate periods
+	stall   bool   // race only: the LJH file of one channel is a stalled named pipe, so that its write queue runs full
 	groups  int    // abaco only: number of channel groups in the packet stream (nchan channels each)
 	quiet   int    // ms of run time without control requests while files are written: the status thread's delayed
 	               // save (2 s after the last change of a saved setting) fires while core-loop status messages keep coming
@@ -73,8 +74,8 @@ type c17Cfg struct {
 }
 
 func (c c17Cfg) String() string {
-	return fmt.Sprintf("kind %s src %s nchan %d runms %d yield %d savegap %d narch %d long %d quiet %d groups %d", c.kind, c.src, c.nchan,
-		c.runMs, c.yield, b2i(c.saveGap), c.narch, b2i(c.long), c.quiet, c.groups)
+	return fmt.Sprintf("kind %s src %s nchan %d runms %d yield %d savegap %d narch %d long %d quiet %d groups %d stall %d", c.kind, c.src, c.nchan,
+		c.runMs, c.yield, b2i(c.saveGap), c.narch, b2i(c.long), c.quiet, c.groups, b2i(c.stall))
 }
 
 var c17Once sync.Once
@@ -399,6 +400,88 @@ func c17Run(cfg c17Cfg) string {
 	return fmt.Sprintf("start=ok ok=%d err=%d arch=%d/%d", nok, nerr, narchOK, len(archives))
 }
 
+// c17RunStall: writing is active and the LJH file of the first channel is a named pipe nobody drains: the file-writer
+// goroutine of that channel blocks in the kernel, its queue (1000 chunks) runs full, and the per-channel processing
+// goroutine keeps calling Write on the full queue.  Then the pipe is drained, writing is stopped, the source stopped.
+// Memory of the writers is not named in the skeleton: this scenario exists for the race-detector half only.
+func c17RunStall(cfg c17Cfg) string {
+	c17Setup()
+	wd := c17Workdir()
+	sc := dastard.VerifC17NewControl(8, 32)
+	var ok bool
+	// blocks of 80000 samples (0.8 s): with back-to-back auto triggers ONE block yields 2500 records per channel
+	if err := sc.ConfigureTriangleSource(&dastard.TriangleSourceConfig{Nchan: cfg.nchan, SampleRate: 100000, Min: 0, Max: 40000}, &ok); err != nil {
+		return "start=failed:configure"
+	}
+	name := "TRIANGLESOURCE"
+	if err := sc.Start(&name, &ok); err != nil {
+		return "start=failed:" + strings.ReplaceAll(err.Error(), " ", "_")
+	}
+	dir := filepath.Join(wd, fmt.Sprintf("stall_%d", os.Getpid()))
+	nok, nerr := 0, 0
+	note := func(err error) {
+		if err == nil {
+			nok++
+		} else {
+			nerr++
+		}
+	}
+	// files are created with the first record: start writing before any trigger is on, then put the pipe in place
+	note(sc.WriteControl(&dastard.WriteControlConfig{Request: "START", Path: dir, WriteLJH22: true}, &ok))
+	runs, _ := filepath.Glob(filepath.Join(dir, "*", "0000"))
+	if len(runs) != 1 {
+		return "start=failed:no-run-directory"
+	}
+	today := filepath.Base(filepath.Dir(runs[0]))
+	fifo := filepath.Join(runs[0], today+"_run0000_chan1.ljh")
+	if err := syscall.Mkfifo(fifo, 0o600); err != nil {
+		return "start=failed:mkfifo"
+	}
+	rfd, err := syscall.Open(fifo, syscall.O_RDONLY|syscall.O_NONBLOCK, 0)
+	if err != nil {
+		return "start=failed:open-fifo"
+	}
+	const fSetPipeSz = 1031
+	syscall.Syscall(syscall.SYS_FCNTL, uintptr(rfd), fSetPipeSz, 4096)
+	all := make([]int, cfg.nchan)
+	for i := range all {
+		all[i] = i
+	}
+	ts := &dastard.FullTriggerState{ChannelIndices: all}
+	ts.AutoTrigger = true
+	ts.AutoDelay = 0 // back-to-back records
+	note(sc.ConfigureTriggers(ts, &ok))
+	time.Sleep(time.Duration(cfg.runMs) * time.Millisecond) // >= 2 blocks: ~850 records absorbed, 1000 queued, the rest meet a full queue
+	// "the disk takes it again"
+	stop := make(chan struct{})
+	drained := make(chan int)
+	go func() {
+		buf := make([]byte, 65536)
+		total := 0
+		for {
+			n, _ := syscall.Read(rfd, buf)
+			if n > 0 {
+				total += n
+				continue
+			}
+			select {
+			case <-stop:
+				drained <- total
+				return
+			case <-time.After(time.Millisecond):
+			}
+		}
+	}()
+	time.Sleep(300 * time.Millisecond)
+	note(sc.WriteControl(&dastard.WriteControlConfig{Request: "STOP"}, &ok))
+	var dummy string
+	note(sc.Stop(&dummy, &ok))
+	close(stop)
+	total := <-drained
+	syscall.Close(rfd)
+	return fmt.Sprintf("start=ok ok=%d err=%d stalledbytes=%d", nok, nerr, total)
+}
+
 // ---------------------------------------------------------------------------------------------
 // race search: build once per check run, run the scenario in the -race binary, parse the reports
 
@@ -610,14 +693,18 @@ func c17Gen(r *Rng, tier string, idx int) (string, func() string) {
 		// we are the -race child: run exactly the scenario the parent drew, in this process, hooks quiet
 		var cfg c17Cfg
 		var sg int
-		var lg int
-		fmt.Sscanf(inner, "kind %s src %s nchan %d runms %d yield %d savegap %d narch %d long %d quiet %d groups %d", &cfg.kind, &cfg.src,
-			&cfg.nchan, &cfg.runMs, &cfg.yield, &sg, &cfg.narch, &lg, &cfg.quiet, &cfg.groups)
+		var lg, st int
+		fmt.Sscanf(inner, "kind %s src %s nchan %d runms %d yield %d savegap %d narch %d long %d quiet %d groups %d stall %d", &cfg.kind, &cfg.src,
+			&cfg.nchan, &cfg.runMs, &cfg.yield, &sg, &cfg.narch, &lg, &cfg.quiet, &cfg.groups, &st)
 		cfg.saveGap = sg != 0
 		cfg.long = lg != 0
+		cfg.stall = st != 0
 		return inner, func() string {
 			dastard.VerifC17Quiet(true)
 			dastard.VerifC17Yield(cfg.yield)
+			if cfg.stall {
+				return c17RunStall(cfg)
+			}
 			return c17Run(cfg)
 		}
 	}
@@ -647,8 +734,10 @@ func c17Gen(r *Rng, tier string, idx int) (string, func() string) {
 		if tier == "thorough" {
 			cfg.runMs = r.Pick(3000, 5000)
 		}
-	default: // race-detector run with long blocks
+	case k == 8: // race-detector run with long blocks
 		cfg.kind, cfg.src, cfg.long, cfg.runMs, cfg.narch = "race", "tri", true, 6000, 1
+	default: // race-detector run with a stalled output file: one channel's write queue runs full while records keep coming
+		cfg.kind, cfg.src, cfg.stall, cfg.runMs, cfg.narch, cfg.nchan = "race", "tri", true, 2400, 0, 2
 	}
 	if cfg.src == "lancero" {
 		cfg.nchan = r.Pick(4, 6)
